@@ -1027,3 +1027,72 @@ pub fn rt_locked<T: Payload + 'static>(cap: usize, nbuf: usize, waiter: u8) {
     cx.rf[0] = None;
     epilogue(&mut cx, 4);
 }
+
+// ---------------------------------------------------------------------------
+// Family W: a third party acting at the start of a hand-off (Signal::wake entry)
+// ---------------------------------------------------------------------------
+
+/// The channel is full (cap >= 1: buffer full; cap 0: nothing) with one pending send future behind it
+/// (recv_side) or empty with one pending receive future (send side).  Thread 0 runs a non-waiting
+/// operation that serves that waiter; a third party (thread 1: try_send / try_recv / observers) is
+/// scheduled at the entry of the hand-off.  If that point is inside the critical section the site is
+/// skipped (nothing can run there); if it is outside, the third party must see a state an atomic
+/// channel can be in: full before and after, so a try_send is refused; the observers report len == cap.
+pub fn wake_window<T: Payload + 'static>(cap: usize, recv_side: bool, outer_k: u8, peer_k: u8) {
+    sym_env(0, 0, 1);
+    unsafe {
+        model::CLOCK_FROZEN = true;
+    }
+    let mut cx = Ctx::<T>::new(Some(cap));
+    cx.install();
+    if recv_side {
+        make_full(&mut cx, cap);
+        let r = step(&mut cx, 2, act(A_ASEND_START).tag(1).w(0));
+        assert!(r.code == R_PENDING);
+    } else {
+        let r = step(&mut cx, 2, act(A_ARECV_START).w(0));
+        assert!(r.code == R_PENDING);
+    }
+    cx.inject(0, 0, SITE_WAKE_ENTRY, 1, act(peer_k).tag(2));
+    let r = step(&mut cx, 0, act(outer_k).tag(5).w(1).f(1).d(0));
+    let fired = model::fired(0);
+    let p = cx.res[0];
+    kani::cover!(fired, "third party ran during the hand-off");
+    kani::cover!(unsafe { model::SKIPPED_LOCKED } > 0, "hand-off starts inside the critical section");
+    assert!(r.code == R_OK || r.code == R_COUNT, "C06/C18: operation that serves a waiter did not succeed");
+    if fired {
+        match peer_k {
+            A_TRY_SEND | A_TRY_SEND_OPT | A_TRY_SEND_RT => {
+                if recv_side {
+                    assert!(p.code == R_FALSE, "C03/C08: try_send succeeded on a channel that is full in every atomic state");
+                }
+            }
+            A_TRY_RECV | A_TRY_RECV_RT => {
+                if !recv_side {
+                    assert!(p.code == R_FALSE, "C03: try_recv obtained a value although the only value was handed to the waiting receiver");
+                }
+            }
+            A_OBSERVE => {
+                if recv_side && outer_k != A_DRAIN {
+                    assert!(p.tag as usize == cap,
+                        "C03: observer saw a buffer length no atomic channel could have (half-applied receive)");
+                }
+            }
+            _ => {}
+        }
+    }
+    let a = cx.abs();
+    assert!(a.qlen <= cap, "C08: buffer longer than capacity");
+    if recv_side && outer_k != A_DRAIN {
+        assert!(a.qlen == cap && a.wlen == 0, "C02/C06: blocked sender's value was not moved into the freed place");
+        if T::TAGGED {
+            assert!(cx.order[0] == if cap > 0 { 3 } else { 1 }, "C02: receive did not obtain the oldest value");
+        }
+    }
+    cx.sf[0] = None;
+    cx.rf[0] = None;
+    cx.sf[1] = None;
+    cx.rf[1] = None;
+    cx.stream = None;
+    epilogue(&mut cx, 5);
+}
